@@ -29,14 +29,15 @@ import (
 var checkFlag = flag.String("check", "c03", "c03 | c04 | c05")
 
 type scenario struct {
-	Name      string `json:"name"`
-	Proto     string `json:"proto"`
-	N         int    `json:"n"`
-	T         int    `json:"t"`
-	Cost      int    `json:"cost"`                 // rough cost class: 0 = milliseconds, 1 = tens of ms, 2 = seconds
-	StateOnly bool   `json:"state_only,omitempty"` // only the state-level deviations (C04)
-	BlameOnly bool   `json:"blame_only,omitempty"` // of those, only the delta / chi inconsistencies every honest signer must attribute
-	Pool      int    `json:"pool,omitempty"`       // > 0: the sessions run with a worker pool of that size (C05: a panic on a pool goroutine kills the process)
+	Name      string   `json:"name"`
+	Proto     string   `json:"proto"`
+	N         int      `json:"n"`
+	T         int      `json:"t"`
+	Cost      int      `json:"cost"`                 // rough cost class: 0 = milliseconds, 1 = tens of ms, 2 = seconds
+	StateOnly bool     `json:"state_only,omitempty"` // only the state-level deviations (C04)
+	BlameOnly bool     `json:"blame_only,omitempty"` // of those, only the delta / chi inconsistencies every honest signer must attribute
+	Pool      int      `json:"pool,omitempty"`       // > 0: the sessions run with a worker pool of that size (C05: a panic on a pool goroutine kills the process)
+	OnlyOps   []string `json:"only_ops,omitempty"`   // restrict the operator menu (quick-tier sizing of expensive scenarios)
 }
 
 // world is a scenario made concrete: the session description plus what the oracles need.
@@ -215,6 +216,10 @@ func scenarios(check string) []scenario {
 		// the same malformed messages with a 2-worker pool: part of the verification then runs on pool goroutines
 		addPool("doerner-keygen", 2, 1, 1)
 		addPool("cmp-presign-online", 2, 1, 1)
+		if !vkit.Thorough() {
+			// quick tier: the absent-value operator on every field of the expensive protocols whose proofs are verified on the pool
+			l = append(l, scenario{Name: "cmp-keygen/n2/t1/pool2/null", Proto: "cmp-keygen", N: 2, T: 1, Cost: 2, Pool: 2, OnlyOps: []string{"null"}})
+		}
 		if vkit.Thorough() {
 			addPool("doerner-sign", 2, 1, 1)
 			addPool("cmp-sign", 2, 1, 2)
